@@ -7,7 +7,12 @@
    the way LazyTable abstracts it (a list that equals the first k entries of the sequential
    table becomes Prefix(k), any other list a list with a 0 entry; a coordinate triple that
    stands for the sequential point is Old (z # 1) or New (z = 1), any other is "mixed"):
-     n                     length of the table of the sequential run (0: the point is no generator)
+     mode                  "table" (generator, affine) / "scale" (Jacobian point, no generator) / "jtable" (generator
+                           given in Jacobian form; B rescales it while A builds the table)
+     adj                   TRUE: events idx and idx+1 of a run are exactly one statement of the builder apart (only the
+                           traced function's own frame is stopped); FALSE: callees are stopped too, and the number of
+                           events may depend on history (caches), so only the many-step relation is required
+     n                     length of the table of the sequential run
      loc_len, loc_ok       A's local list
      pub_len, pub_ok, same self.__precompute before B ran; same = it IS A's local list
      z1, co_ok             self.__coords before B ran
@@ -28,7 +33,7 @@ Co(z1, ok) == IF ~ok THEN <<"?", "?", "?">> ELSE IF z1 THEN <<"x", "y", "one">> 
 
 \* LazyTable with its variables replaced by the recorded state
 LT(md, l, p, s, c, rd, o) ==
-    INSTANCE LazyTable WITH EARLY_PUBLISH <- FALSE, SPLIT_ASSIGN <- FALSE,
+    INSTANCE LazyTable WITH EARLY_PUBLISH <- FALSE, SPLIT_ASSIGN <- FALSE, TORN_READ <- FALSE,
                             mode <- md, bpc <- "hidden", loc <- l, pub <- p, shared <- s, coords <- c,
                             tmp <- <<"-", "-", "-">>, rdone <- rd, obs <- o
 
@@ -55,21 +60,21 @@ StepN(x, y)  == LT(x.md, x.l, x.p, x.s, x.c, x.rd, x.o)!EffectStarTo(y.l, y.p, y
 
 Verdict(ev, prev, hasPrev) ==
     LET s == AtS(ev)  b == AtB(ev)  f == AtF(ev) IN
-    IF ev.mode \notin {"table", "scale"} THEN "bad-event"
+    IF ev.mode \notin {"table", "scale", "jtable"} THEN "bad-event"
     ELSE IF ev.n # N THEN "table-length"
     ELSE IF ~PubOK(s) THEN "table-partly-visible"
     ELSE IF ~CoordsOK(s) THEN "coords-mixed"
     ELSE IF ~LocOK(s) THEN "local-list"
     ELSE IF ~AloneOK(s) THEN "published-before-complete"
     ELSE IF hasPrev /\ ev.idx <= prev.idx THEN "order"
-    ELSE IF hasPrev /\ ev.idx = prev.idx + 1 /\ ~Step1(AtS(prev), s) THEN "builder-step"
-    ELSE IF hasPrev /\ ev.idx > prev.idx + 1 /\ ~StepN(AtS(prev), s) THEN "builder-steps"
+    ELSE IF hasPrev /\ ev.idx = prev.idx + 1 /\ ev.adj /\ ~Step1(AtS(prev), s) THEN "builder-step"
+    ELSE IF hasPrev /\ (ev.idx > prev.idx + 1 \/ ~ev.adj) /\ ~StepN(AtS(prev), s) THEN "builder-steps"
     ELSE IF ~ReaderOK(b) THEN "reader-result"
     ELSE IF ~CoordsOK(b) THEN "reader-coords"
-    ELSE IF ev.mode = "table" /\ ev.res > 0 /\ ~Complete(b) THEN "reader-table"
+    ELSE IF ev.mode # "scale" /\ ev.res > 0 /\ ~Complete(b) THEN "reader-table"
     ELSE IF ~ReaderOK(f) THEN "final-result"
     ELSE IF ~CoordsOK(f) THEN "final-coords"
-    ELSE IF ev.mode = "table" /\ ~Complete(f) THEN "final-table"
+    ELSE IF ev.mode # "scale" /\ ~Complete(f) THEN "final-table"
     ELSE IF ev.mode = "scale" /\ ~IsScaled(f) THEN "final-not-scaled"
     ELSE "ok"
 
